@@ -59,7 +59,18 @@ def gen_enum(rng):
 
 def gen_flag(rng):
     nbits = rng.randint(1, 6)
-    style = rng.choice(["plain", "plain", "zero", "compound", "multibit-only", "alias", "intflag", "zero+compound"])
+    style = rng.choice(["plain", "plain", "zero", "compound", "multibit-only", "alias", "intflag", "zero+compound", "overlapping-compounds"])
+    if style == "overlapping-compounds":
+        # multi-bit members that OVERLAP while their non-shared bits have no single-bit member (READ=1, READ_WRITE=3, READ_EXEC=5):
+        # the list of names of READ_WRITE | READ_EXEC needs both compound names (seeded change: the dumper 'consumed' the shared bit)
+        members = {"READ": 1, "READ_WRITE": 3, "READ_EXEC": 5}
+        if nbits >= 4:
+            members["OWN"] = 8
+        if nbits >= 5:
+            members["OWN_DEL"] = 24
+        if rng.random() < 0.3:
+            members["NONE"] = 0
+        return style, enum.Flag(f"F{next(_n)}", members)
     bit_names = ["R", "W", "X", "Del", "admin_mode", "OWN"][:nbits]
     members = {}
     if "zero" in style:
